@@ -89,6 +89,17 @@ func TestC07BlockCuts(t *testing.T) {
 	st := stats.G()
 	rapid.Check(t, func(rt *rapid.T) {
 		cols, rows := drawBlockWide(rt, 3)
+		if rapid.IntRange(0, 3).Draw(rt, "steer-last-column") == 0 {
+			// Steer: a column with a hand-written (not generated) decoder comes last, at a
+			// row count on a power-of-two boundary - a decoder that stops early is exposed
+			// only when nothing follows it.
+			k := specialKinds()[rapid.IntRange(0, len(specialKinds())-1).Draw(rt, "special-kind")]
+			rows = rapid.SampledFrom([]int{32, 63, 64, 65, 128, 192, 256}).Draw(rt, "boundary-rows")
+			for i := range cols {
+				cols[i].Rows = gen.DrawRows(rt, cols[i].Kind, rows)
+			}
+			cols[len(cols)-1] = colSpec{Name: "last", Kind: k, Rows: gen.DrawRows(rt, k, rows)}
+		}
 		rev := rapid.SampledFrom(blockRevs).Draw(rt, "rev")
 		_, in := libInput(cols, false)
 		blk := proto.Block{Info: proto.BlockInfo{BucketNum: -1}, Columns: len(in), Rows: rows}
@@ -222,4 +233,22 @@ func TestC07MessageCuts(t *testing.T) {
 			return map[string]any{"kind": "message-cuts", "message": name, "rev": rev, "bytes": len(data), "cuts_inside_fields": nt, "hex": fmt.Sprintf("%x", data)}
 		})
 	})
+}
+
+var specialKindsCache []*gen.Kind
+
+// specialKinds: kinds whose codecs are hand-written rather than generated.
+func specialKinds() []*gen.Kind {
+	if specialKindsCache != nil {
+		return specialKindsCache
+	}
+	for _, k := range gen.Kinds {
+		switch k.Scalar {
+		case "Nothing", "Bool", "UUID", "FixedString", "Interval", "Point", "JSON", "Enum", "String", "Bytes", "RawOf", "DateTime64", "DateTime":
+			if k.Shape == "X" || k.Shape == "Nullable(X)" || k.Shape == "Array(X)" || k.Shape == "LowCardinality(X)" || k.Shape == "Map(String,X)" {
+				specialKindsCache = append(specialKindsCache, k)
+			}
+		}
+	}
+	return specialKindsCache
 }
